@@ -77,11 +77,22 @@ def run(ctx):
                      simulate="num=%d" % (250 if q else 1500), depth=24, extra=["-seed", str(ctx.seed * 10 + s)])
         if r["rc"] != 0:
             raise Undecided("history generation failed:\n" + r["out"][-2000:])
-        hs += behaviours(r["out"])
+        sims = behaviours(r["out"])
+        # TLC prints every candidate last step of a simulated behaviour: tens of thousands of histories per run
+        ctx.rng.shuffle(sims)
+        hs += sims[:2500]
     hin, hout = ctx.path("a", "hist.json"), ctx.path("a", "hist.ndjson")
     json.dump(hs, open(hin, "w"))
-    core.run([os.path.join(ctx.bindir, "acmex"), "-mode", "hist", "-in", hin, "-out", hout, "-work", ctx.path("a", "wh", "x"), "-par", str(core.NCPU)],
-             timeout=3300, env=dict(VERIF_REPO=core.REPO))
+    # every controller instance leaves 1-2 MB behind in the process (see ctl.run_histories): chunks
+    with open(hout, "w") as fo:
+        for ci in range(0, len(hs), 2500):
+            cin, cout = ctx.path("a", "hist-%d.json" % ci), ctx.path("a", "hist-%d.ndjson" % ci)
+            json.dump(hs[ci:ci + 2500], open(cin, "w"))
+            core.run([os.path.join(ctx.bindir, "acmex"), "-mode", "hist", "-in", cin, "-out", cout, "-work", ctx.path("a", "wh", "x"), "-par", str(core.NCPU)],
+                     timeout=3300, env=dict(VERIF_REPO=core.REPO))
+            fo.write(open(cout).read())
+            os.remove(cin)
+            os.remove(cout)
     res = judge(ctx, "hist", hout)
     ctx.traces_validated += len(hs)
     evs = core.read_ndjson(hout)
